@@ -436,10 +436,10 @@ def classify_hash_loop(b, nbb, nt, h, body):
         for n in vt_walk(v):
             if n[0] == "field" and n[1][0] == "field" and n[1][1][0] == "downcast":
                 base = n[1][1][1]
-                if base[0] == "local" and base[1] == item:
+                if (base[0] == "local" and base[1] == item) or (base[0] == "call" and strip_generics(base[1]).endswith("Iterator::next")):
                     return "key" if n[2] == "0" else "value"
         for n in vt_walk(v):
-            if n[0] == "local" and n[1] == item:
+            if (n[0] == "local" and n[1] == item) or (n[0] == "call" and strip_generics(n[1]).endswith("Iterator::next")):
                 return "element"
         return None
     for x in sorted(body):
@@ -456,6 +456,38 @@ def classify_hash_loop(b, nbb, nt, h, body):
             c = comp_of(b.value(t["args"][1]))
             if branched and c != "key":
                 reasons.append("first-wins filter: %s on the %s component decides which element is used (the first one in hash order wins)" % (nm, c or "derived value"))
+        # first-wins insert: `map.entry(k).or_insert_with(|| value_of_this_element)` with k not the iteration key - several elements share k and
+        # the one that comes first in hash order decides the stored value
+        if q.endswith(("Entry::or_insert", "Entry::or_insert_with")) and len(t["args"]) > 1:
+            ev = b.value(t["args"][0])
+            ekey = None
+            for n in vt_walk(ev):
+                if n[0] == "call" and strip_generics(n[1]).endswith(("HashMap::entry", "BTreeMap::entry")) and len(n[2]) > 1:
+                    ekey = comp_of(n[2][1])
+            vv = b.value(t["args"][1])
+            const_val = vv[0] == "const" or (vv[0] == "call" and not vv[2])
+            if q.endswith("or_insert_with"):
+                const_val = not (t["callee"].get("closures") or any(n[0] == "agg" for n in vt_walk(vv)))
+            # a value that depends only on the same component as the entry key is the same for every element that shares the key
+            comps = set()
+            srcs = [vv]
+            for cp_ in (t["callee"].get("closures") or []):
+                cb_ = b.facts.bodies.get(cp_)
+                if cb_ is not None:
+                    # what the closure captured: the operands of its aggregate in this body
+                    for n in vt_walk(vv):
+                        if n[0] == "agg":
+                            srcs += list(n[2])
+            for sv in srcs:
+                for n in vt_walk(sv):
+                    if n[0] == "field" and n[1][0] == "field" and n[1][1][0] == "downcast":
+                        base = n[1][1][1]
+                        if (base[0] == "local" and base[1] == item) or (base[0] == "call" and strip_generics(base[1]).endswith("Iterator::next")):
+                            comps.add("key" if n[2] == "0" else "value")
+            if comps and comps <= {ekey}:
+                const_val = True
+            if ekey is not None and ekey != "key" and not const_val:
+                reasons.append("first-wins insert: entry(<%s component>).%s(<value of this element>) keeps the value of whichever element comes first in hash order" % (ekey, nm))
         # appends to an ordered sink declared outside the loop
         if q.endswith(("Vec::push", "String::push_str", "Vec::extend_from_slice", "VecDeque::push_back", "Write::write_all", "Write::write_fmt")):
             recv = b.value(t["args"][0])
